@@ -45,6 +45,7 @@ pub fn expected_nodes(snap: &Snapshot, q: &str, target: &Id) -> Vec<(Id, SocketA
 /// the table snapshot taken right after the step that produced it.
 pub fn check_server_replies(sim: &Sim, servers: &[HostId], snaps: &BTreeMap<(HostId, u64), Rc<Snapshot>>, report: &mut Report) {
     let mut checked = 0u64;
+    let mut with_stale = 0u64;
     let findings: Vec<(String, String)> = sim.with_trace(|tr| {
         let mut out = vec![];
         for h in servers {
@@ -75,6 +76,9 @@ pub fn check_server_replies(sim: &Sim, servers: &[HostId], snaps: &BTreeMap<(Hos
                 let got = reply.nodes().unwrap_or_default();
                 let want = expected_nodes(snap, q, &target);
                 checked += 1;
+                if [&snap.routing_table, &snap.signed_peers_routing_table].iter().any(|t| t.buckets.iter().any(|(_, b)| b.iter().any(|n| n.age_ns > 15 * 60 * SEC))) {
+                    with_stale += 1;
+                }
                 if got.len() > 20 {
                     out.push(("more-than-20-nodes".to_string(), format!("{q} reply of {} lists {} nodes", sim.node_addr(*h), got.len())));
                 } else if got != want {
@@ -105,6 +109,7 @@ pub fn check_server_replies(sim: &Sim, servers: &[HostId], snaps: &BTreeMap<(Hos
         out
     });
     report.probe("server_replies_checked", checked);
+    report.probe("server_replies_checked_while_the_table_held_stale_members", with_stale);
     if let Some((key, detail)) = findings.into_iter().next() {
         report.violate("closest", &key, detail);
     }
@@ -123,7 +128,171 @@ pub fn snapshot_recorder(sim: &Sim) -> Rc<RefCell<BTreeMap<(HostId, u64), Rc<Sna
     snaps
 }
 
+/// Lookup-side accumulator under *Sybil listings*: answers list a known id a second time under another
+/// address for which its BEP42 class differs (and ids whose class is the other way round). The clean
+/// accumulator keeps both entries, each in its own block; the reported list must stay sorted
+/// secure-first / XOR, free of duplicates, and complete up to same-id-same-class twins.
+fn run_sybil_listings(ctx: &RunCtx) -> Report {
+    let mut report = Report::default();
+    let mut rng = Rng::new(ctx.seed ^ 0x5b11);
+    let net = NetCfg {
+        latency_min_us: 500,
+        latency_max_us: rng.range(2_000, 80_000),
+        ..NetCfg::default()
+    };
+    let sim = Sim::new(ctx.seed, net);
+    sim.set_snap_mode(SnapMode::Off);
+    let rawnet = RawNet::new();
+    let n = rng.usize(4, 45);
+    let target: Id = rng.id();
+    let mut used = std::collections::BTreeSet::new();
+    let mut fresh_ip = |rng: &mut Rng| loop {
+        let ip = pub_ip(rng);
+        if used.insert(ip) {
+            return ip;
+        }
+    };
+    // ghosts: (id, address nobody lives at)
+    let mut ghosts: Vec<(Id, SocketAddrV4)> = vec![];
+    for i in 0..n {
+        let ip = fresh_ip(&mut rng);
+        let addr = SocketAddrV4::new(ip, 6881 + (i % 5) as u16);
+        let mut id = rng.id();
+        if rng.chance(1, 2) {
+            let keep = rng.usize(1, 18);
+            id[..keep].copy_from_slice(&target[..keep]);
+        }
+        match rng.below(4) {
+            // secure at its own address; a ghost listing under another IP is insecure there
+            0 | 1 => {
+                id = krpc::bep42_id(ip, id);
+                if rng.chance(1, 2) {
+                    ghosts.push((id, SocketAddrV4::new(fresh_ip(&mut rng), 6881)));
+                }
+            }
+            // insecure at its own address, but the id is BEP42-valid for the ghost's IP
+            2 => {
+                let gip = fresh_ip(&mut rng);
+                id = krpc::bep42_id(gip, id);
+                ghosts.push((id, SocketAddrV4::new(gip, 6881)));
+            }
+            // plain insecure id; its ghost twin is insecure too (same class: one of the two is kept)
+            _ => {
+                if rng.chance(1, 3) {
+                    ghosts.push((id, SocketAddrV4::new(fresh_ip(&mut rng), 6881)));
+                }
+            }
+        }
+        let mut p = Peer::new(id, addr);
+        p.k = 20;
+        p.delay = rng.range(0, 100) * MS;
+        rawnet.add(&sim, p);
+    }
+    for i in 0..n {
+        let mut knows: Vec<usize> = (0..n).filter(|x| *x != i).collect();
+        rng.shuffle(&mut knows);
+        knows.truncate(rng.usize(1, n.min(14)));
+        let mut extra: Vec<(Id, SocketAddrV4)> = ghosts.iter().filter(|_| rng.chance(1, 3)).cloned().collect();
+        rng.shuffle(&mut extra);
+        rawnet.with_peer(i, |p| {
+            p.knows = knows;
+            p.extra_nodes = extra;
+        });
+    }
+    let mut spec = NodeSpec::new(fresh_ip(&mut rng), 6881);
+    spec.server_mode = rng.chance(1, 4);
+    spec.bootstrap = (0..rng.usize(1, 3.min(n))).map(|i| rawnet.contact(i).1.to_string()).collect();
+    let node = sim.add_node(spec);
+    let warm = rng.chance(1, 2);
+    sim.run_for(if warm { rng.range(3, 20) * SEC } else { 0 });
+    let t0 = sim.now();
+    let op = sim.find_node(node, target);
+    let done = sim.run_ops(&[op], sim.now() + 300 * SEC);
+    let t1 = sim.with_op(op, |o| o.done_at).unwrap_or(sim.now());
+    sim.run_for(SEC);
+    if !done {
+        report.violate("hang", "lookup-did-not-finish", "find_node with ghost listings did not finish in 300 s".into());
+    }
+    if let Some(d) = sim.died(node) {
+        report.violate("node-died", "node-actor-panicked", format!("node died: {d}"));
+    }
+    let me = sim.node_addr(node);
+    // everything the lookup was told, as (id, address) pairs: answerers and listed entries of in-time answers
+    let lt = crate::props::c07::lookup_trace(&sim, node, &target, t0, t1);
+    // (answers are attributed to this lookup by (address, transaction id): the node may run a lookup of its
+    // own re-keyed id at the same time, whose answers are not this lookup's)
+    let told: std::collections::BTreeSet<(Id, SocketAddrV4)> = lt.known.iter().map(|(a, id)| (*id, *a)).collect();
+    if let Some(Outcome::Nodes(nodes)) = sim.take_outcome(op) {
+        let got: Vec<(Id, SocketAddrV4)> = nodes.iter().map(|x| (*x.id().as_bytes(), x.address())).collect();
+        let what = format!("peers={n} ghosts={} warm={warm} told={} reported={}", ghosts.len(), told.len(), got.len());
+        let mut expect_sorted = got.clone();
+        sort_closest(&target, &mut expect_sorted);
+        let mut dedup = got.clone();
+        dedup.sort();
+        dedup.dedup();
+        if got.len() > 20 {
+            report.violate("order", "more-than-20-reported", format!("find_node reported {} nodes; {what}", got.len()));
+        } else if got != expect_sorted {
+            report.violate("order", "reported-nodes-not-sorted", format!("the reported nodes are not in secure-first / XOR order although every entry was listed with that id and address; {what}"));
+        } else if dedup.len() != got.len() {
+            report.violate("order", "reported-nodes-duplicate", format!("the reported list holds an (id, address) pair twice; {what}"));
+        } else {
+            let secure = |x: &(Id, SocketAddrV4)| krpc::bep42_secure(&x.0, *x.1.ip());
+            if !warm {
+                for g in &got {
+                    if !told.contains(g) && g.1 != me {
+                        report.violate("order", "reported-node-never-listed", format!("{} @ {} was reported but no answer listed it under that id; {what}", hex8(&g.0), g.1));
+                    }
+                }
+            }
+            // completeness: a told entry that sorts before the last reported one is reported, unless its
+            // twin (same id, same class) is, or an entry of the same IP took its place
+            for c in told.iter().filter(|c| c.1 != me) {
+                if got.contains(c) {
+                    continue;
+                }
+                let before_last = match got.last() {
+                    Some(last) if got.len() >= 20 => {
+                        let mut pair = vec![*c, *last];
+                        sort_closest(&target, &mut pair);
+                        pair[0] == *c
+                    }
+                    _ => true,
+                };
+                let twin = got.iter().any(|g| g.0 == c.0 && secure(g) == secure(c));
+                let same_ip = got.iter().any(|g| g.1.ip() == c.1.ip());
+                if before_last && !twin && !same_ip {
+                    if ctx.verbose {
+                        println!("target {}", krpc::hex(&target));
+                        for g in &got {
+                            println!("  got  {} {} secure={}", krpc::hex(&g.0), g.1, secure(g));
+                        }
+                        for t in told.iter().filter(|t| t.0 == c.0 || t.1.ip() == c.1.ip()) {
+                            println!("  told {} {} secure={}", krpc::hex(&t.0), t.1, secure(t));
+                        }
+                    }
+                    report.violate("order", "reported-nodes-miss-a-closer-node", format!("{} @ {} (secure={}) was listed in an answer and sorts before the last reported node but is not reported; {what}", hex8(&c.0), c.1, secure(c)));
+                    break;
+                }
+            }
+        }
+        let both_classes = ghosts.iter().filter(|g| got.contains(g) && got.iter().any(|x| x.0 == g.0 && x.1 != g.1)).count();
+        report.probe("sybil_listing_runs", 1);
+        report.probe("ids_reported_under_two_addresses", both_classes as u64);
+        report.plan_dump = Some(what.clone());
+        report.sample = Some(json!({"scenario": what}));
+    }
+    report.nontrivial = !ghosts.is_empty() && lt.queried.len() > 2;
+    report.fingerprint = crate::rng::key(lt.arrival_fp, &[n as u64, ghosts.len() as u64]);
+    finish(&sim, report)
+}
+
 fn run(ctx: &RunCtx) -> Report {
+    if ctx.seed % 12 == 1 || ctx.seed % 12 == 5 {
+        let mut r = run_sybil_listings(ctx);
+        r.probe("lookup_side_runs", 1);
+        return r;
+    }
     if ctx.seed % 3 == 0 {
         // lookup side: accumulator order under arbitrary insertion sequences
         let mut r = (crate::props::c07::property().run)(ctx);
@@ -205,6 +374,17 @@ fn run(ctx: &RunCtx) -> Report {
             sim.run_ops(&[o], sim.now() + 60 * SEC);
         }
     }
+    // 1 run in 4: long uptime - every scripted peer falls silent and the reads are spread over the
+    // minutes in which table members have not been heard from for 15 minutes but are still members
+    // (until the next 5-minute maintenance round evicts them): replies list table *members*
+    let ageing = rng.chance(1, 4);
+    if ageing {
+        for j in 0..rawnet.len() {
+            rawnet.with_peer(j, |p| p.silent = true);
+        }
+        sim.run_for(rng.range(14 * 60, 15 * 60 + 30) * SEC);
+        report.probe("ageing_runs", 1);
+    }
     // raw readers
     let reader = SocketAddrV4::new(if public { pub_ip(&mut rng) } else { priv_ip(5000) }, 5000);
     let (_, _log) = logging_raw(&sim, reader);
@@ -214,7 +394,7 @@ fn run(ctx: &RunCtx) -> Report {
     // half of the runs: the second half of the reads repeats the first half (same server, query and
     // target) after the tables changed *without changing size*: some scripted peers moved to another
     // port (same id, old address silent) and the servers met them again through lookups
-    let churn = rng.chance(1, 2) && n_reads >= 4;
+    let churn = rng.chance(1, 2) && n_reads >= 4 && !ageing;
     let half = n_reads / 2;
     let mut asked: Vec<(HostId, Id, &str)> = vec![];
     for i in 0..n_reads {
@@ -295,7 +475,7 @@ fn run(ctx: &RunCtx) -> Report {
         };
         plan.push(format!("read[{i}] {q}({}) -> {}", hex8(&t), sim.node_addr(h)));
         sim.raw_send(reader, sim.node_addr(h), krpc::query(&krpc::tid_bytes(1000 + i as u32), q, args, &opts));
-        sim.run_for(r.range(1, 300) * MS);
+        sim.run_for(if ageing { r.range(1, 25_000) } else { r.range(1, 300) } * MS);
     }
     sim.run_for(2 * SEC);
     for h in &servers {
